@@ -348,6 +348,89 @@ func c07AcrossVersion(kind, flushMode string, dotu bool, maxpend, P int) Scenari
 	return vsScenario(&VsSpec{Name: name, Body: body, Check: check, P: P})
 }
 
+// c07QueuedFlushedAcrossVersion: like c07AcrossVersion, but between the Tversion and the
+// request that is finally flushed, another request under the same tag queues behind the
+// old one, is flushed while still waiting and so finishes first.
+func c07QueuedFlushedAcrossVersion(dotu bool, maxpend, P int) Scenario {
+	var s *sess
+	name := fmt.Sprintf("flush across-Tversion with a queued request flushed in between maxpend=%d dotu=%v", maxpend, dotu)
+	body := func() {
+		s = newSess(SrvOpt{Msize: 256, Dotu: dotu, Maxpend: maxpend})
+		a := s.prepare("read", 30, 100)
+		b := s.prepare("stat", 31, 100)
+		c := s.prepare("read", 32, 100)
+		gA, gC := vs.NewSem(0), vs.NewSem(0)
+		s.fs.Script[reqKey{0, 100, 0}] = &Action{Gate: gA}
+		// whichever occurrence the third request is for the implementation (the second never gets there if it is cancelled in time)
+		s.fs.Script[reqKey{0, 100, 1}] = &Action{Gate: gC}
+		s.fs.Script[reqKey{0, 100, 2}] = &Action{Gate: gC}
+		s.c.Send(dotu, a)
+		vs.Idle()
+		ver := "9P2000"
+		if dotu {
+			ver = "9P2000.u"
+		}
+		if r := s.c.Version(256, ver); r == nil || r.Type != wire.Rversion {
+			vs.Fail("Tversion in mid-session answered by %v", r)
+		}
+		s.setupN = len(s.c.Collect())
+		vs.Window(true)
+		s.c.Send(dotu, b)
+		vs.Idle()
+		s.c.Send(dotu, &wire.Msg{Type: wire.Tflush, Tag: 103, Oldtag: 100})
+		vs.Idle()
+		got103 := false
+		for _, f := range s.c.Collect()[s.setupN:] {
+			if f.Msg != nil && f.Msg.Tag == 103 {
+				got103 = true
+			}
+		}
+		if !got103 {
+			// the queued request could not be cancelled yet: let the old one go first
+			gA.Release()
+			vs.Idle()
+			gC.Release()
+			vs.Idle()
+		}
+		s.setupN = len(s.c.Collect())
+		s.c.Send(dotu, c)
+		vs.Idle()
+		gA.Release()
+		vs.Idle()
+		s.c.Send(dotu, &wire.Msg{Type: wire.Tflush, Tag: 101, Oldtag: 100})
+		vs.Idle()
+		gC.Release()
+		gC.Release()
+		vs.Idle()
+		vs.Window(false)
+		s.c.Collect()
+	}
+	check := stdCheck("C07", func(x *vs.Exec) *Viol {
+		frames := s.c.Frames[s.setupN:]
+		detail := map[string]any{"wire": strings.Split(framesString(frames), "\n"), "fslog": strings.Split(s.fs.logString(), "\n")}
+		nflush, rflushAt := 0, -1
+		for i, f := range frames {
+			if f.Msg == nil {
+				return &Viol{Sig: "C07/malformed-frame", Msg: f.Err, Detail: detail}
+			}
+			if f.Msg.Tag == 101 {
+				nflush++
+				rflushAt = i
+			}
+		}
+		if nflush != 1 {
+			return &Viol{Sig: fmt.Sprintf("C07/rflush-count-%d/across-version-queued", nflush), Msg: fmt.Sprintf("the Tflush got %d replies\n%s\nparked %v", nflush, framesString(frames), x.Parked), Detail: detail}
+		}
+		for i, f := range frames {
+			if f.Msg.Tag == 100 && i > rflushAt {
+				return &Viol{Sig: "C07/reply-after-rflush/across-version-queued", Msg: fmt.Sprintf("the request under tag 100 was answered after the Rflush for that tag (before it: a Tversion with an older request under the tag still held, and a request under the tag that was flushed while it waited behind that one)\n%s", framesString(frames)), Detail: detail}
+			}
+		}
+		return nil
+	}, nil)
+	return vsScenario(&VsSpec{Name: name, Body: body, Check: check, P: P})
+}
+
 // c07AuthReadReuse: a read on an authentication fid is waiting inside AuthRead when it
 // is flushed and the implementation cancels it; the Rflush arrives and the client uses
 // the tag again at once (with a slow reader, so that the new reply waits behind the
@@ -459,6 +542,7 @@ func c07Scenarios(tier string) []Scenario {
 		}
 	}
 	out = append(out, c07AuthReadReuse("stat", true, 0, 1), c07AuthReadReuse("read", false, 2, 1))
+	out = append(out, c07QueuedFlushedAcrossVersion(false, 0, 1), c07QueuedFlushedAcrossVersion(true, 2, 1))
 	out = append(out, c07AcrossVersion("read", "none", false, 0, 2), c07AcrossVersion("walk", "cancel", true, 2, 2), c07AcrossVersion("stat", "ignore", true, 1, 2))
 	for _, k := range []string{"read", "walk"} {
 		add(c07Params{Kind: k, Stage: "afterreply", FlushMode: "none", P: P})
